@@ -1,6 +1,7 @@
 # C12 -- no data races (partial: lock discipline proved; the race detector searches for failing inputs).
 import random
 from tools import vlib, t3
+from tools import ks
 from tools.vlib import hx
 
 MODULE = "PropC12"
@@ -105,10 +106,12 @@ def run(rep, tier, seed):
         raise RuntimeError("race build failed: %s" % str(bad)[-800:])
     n = 35 if tier == "quick" else 560
     results = t3.run_many(case, [(seed, i) for i in range(n)], workers=8)
+    results += t3.run_many(ks.ks_case, [(seed, i, ("race",)) for i in range(n // 3)], workers=8)
     t3.report_t3(rep, MODULE, proved, results, "lock discipline on the regenerated skeletons / race-detector runs")
     rep.cov["evaluations"] = len(results)
     rep.cov["distinct_nontrivial"] = len({r["spec"] for r in results})
     rep.cov["rule"] = "workflows built with `go build -race -tags verif`: fan-out of one out-port to several consumers incl. a tagging component (MapToTags) and sibling outputs, tagging on a shared source plus group-by-tag concatenation, fan-in with multi-core tasks and parameter feeders, sub-streams + streaming + chains, sibling consumers whose output patterns use path modifiers / default names / parameter feeders, a tagging component beside a Concatenator on one out-port, one sub-stream carrier fanned out to several joining processes; in half of the runs the hooks are inactive (they take no lock then, so they cannot hide a race), in a quarter seeded delays at the hook points; a DATA RACE report (exit 66) is a failing input; the race detector is search, not proof; every case is distinct and non-trivial"
+    rep.cov["rule"] += "; plus kitchen-sink workflows (tools/ks.py: random workflows decorated with tagging components, sub-streams, Concatenator / FileSplitter, streamed pairs, component parameter feeders, Go-function and multi-core processes, RunTo) judged by the model-free race-detector oracle"
     rep.cov["samples"] = [results[0]["spec"]]
     kinds = {}
     for r in results:
